@@ -522,3 +522,28 @@ Fixpoint run_requests (batching : bool) (fl : flavour) (c : cfg) (x : ctx) (rqs 
       let '(s', r) := run_request batching fl c x rq s in
       (resp_row r, map msg_row (msgs s')) :: run_requests batching fl c x tl s'
   end.
+
+(** checksummed variant (the check prints this; the full rows only to explain a mismatch) *)
+Definition row_hash (r : list Z) : Z :=
+  fold_left (fun h x => (h * 1000003 + x + 1) mod 2305843009213693951) r 7.
+Definition rows_hash (rows : list (list Z)) : Z :=
+  fold_left (fun acc r => (acc + row_hash r) mod 2305843009213693951) rows 11.
+
+Fixpoint run_requests_h (batching : bool) (fl : flavour) (c : cfg) (x : ctx) (rqs : list request) (s : state)
+  : list (list Z * Z) :=
+  match rqs with
+  | [] => []
+  | rq :: tl =>
+      let '(s', r) := run_request batching fl c x rq s in
+      (resp_row r, rows_hash (map msg_row (msgs s'))) :: run_requests_h batching fl c x tl s'
+  end.
+
+(** replace items of a base batch (the check writes long batches as a base plus replacements) *)
+Fixpoint set_nth (n : nat) (x : item) (l : list item) : list item :=
+  match l, n with
+  | [], _ => []
+  | _ :: tl, O => x :: tl
+  | a :: tl, S k => a :: set_nth k x tl
+  end.
+Definition repl (changes : list (nat * item)) (base : list item) : list item :=
+  fold_left (fun b p => set_nth (fst p) (snd p) b) changes base.
